@@ -491,6 +491,34 @@ static void cmd_adjcmp(void) {
     free_alist(f); free_alist(t);
 }
 
+// rekey kid c / reparams pid c : the object goes through marshal + validating unmarshal (as it does between two processes) and
+// replaces itself; afterwards it holds normalised representatives (z = 1), which is what a long-lived service works with
+static void cmd_rekey(void) {
+    int kid = (int) argi(1); bool c = argi(2) != 0;
+    size_t n = embedded_pairing_wkdibe_secretkey_get_marshalled_length(&K[kid].k, c);
+    uint8_t* buf = (uint8_t*) malloc(n ? n : 1);
+    embedded_pairing_wkdibe_secretkey_marshal(buf, &K[kid].k, c);
+    int before = K[kid].k.l;
+    int l = embedded_pairing_wkdibe_secretkey_set_length(&K[kid].k, buf, n, c);
+    bool ok = l == before && embedded_pairing_wkdibe_secretkey_unmarshal(&K[kid].k, buf, c, true);
+    printf(" ok=%d l=%d/%d", (int) ok, l, before);
+    free(buf);
+}
+static void cmd_reparams(void) {
+    int pid = (int) argi(1); bool c = argi(2) != 0;
+    size_t n = embedded_pairing_wkdibe_params_get_marshalled_length(&P[pid].p, c);
+    uint8_t* buf = (uint8_t*) malloc(n ? n : 1);
+    embedded_pairing_wkdibe_params_marshal(buf, &P[pid].p, c);
+    int before = P[pid].p.l;
+    int l = embedded_pairing_wkdibe_params_set_length(&P[pid].p, buf, n, c);
+    bool ok = l == before && embedded_pairing_wkdibe_params_unmarshal(&P[pid].p, buf, c, true);
+    uint8_t mb[200];
+    embedded_pairing_wkdibe_masterkey_marshal(mb, &P[pid].msk, c);
+    ok = ok && embedded_pairing_wkdibe_masterkey_unmarshal(&P[pid].msk, mb, c, true);
+    printf(" ok=%d l=%d/%d", (int) ok, l, before);
+    free(buf);
+}
+
 int main(int argc, char** argv) {
     (void) argc; (void) argv;
     static char outbuf[1 << 16];
@@ -513,6 +541,8 @@ int main(int argc, char** argv) {
         else if (!strcmp(op, "keymod")) cmd_keymod();
         else if (!strcmp(op, "precmp")) cmd_precmp();
         else if (!strcmp(op, "adjcmp")) cmd_adjcmp();
+        else if (!strcmp(op, "rekey")) cmd_rekey();
+        else if (!strcmp(op, "reparams")) cmd_reparams();
         else die("unknown op", op);
         if (g_shared) { printf(" shared=%d", g_shared); g_shared = 0; }
         putchar('\n');
